@@ -180,9 +180,31 @@ def c18(seed, n):
     evals = 0
     reader = DiffXDOMReader(DiffX)
     writer = DiffXDOMWriter()
+    from pydiffx.reader import DiffXReader
     for _ in range(n):
         trees = [rand_tree(rng) for _k in range(3)]
         data = trees[0].to_bytes()
+        # results of the streaming reader are parse results too: annotating
+        # one record must not show on another record, another parse, or a
+        # later parse
+        recs_a = list(DiffXReader(io.BytesIO(data)))
+        recs_b = list(DiffXReader(io.BytesIO(data)))
+        pristine = copy.deepcopy(recs_b)
+        evals += 1
+        note_case('records', data)
+        k = rng.randrange(len(recs_a))
+        recs_a[k]['options']['annotated'] = True
+        if isinstance(recs_a[k].get('metadata'), dict):
+            recs_a[k]['metadata']['annotated'] = True
+        others = [r for j, r in enumerate(recs_a) if j != k]
+        if others != [r for j, r in enumerate(pristine) if j != k]:
+            return evals, {'error': 'annotating the options / metadata of '
+                           'one streaming-reader record changed another '
+                           'record of the same parse'}
+        if recs_b != pristine or \
+                list(DiffXReader(io.BytesIO(data))) != pristine:
+            return evals, {'error': 'annotating a streaming-reader record '
+                           'changed the records of another / a later parse'}
         trees.append(reader.parse(io.BytesIO(data)))
         trees.append(reader.parse(io.BytesIO(data)))
         for step in range(6):
